@@ -166,6 +166,16 @@ def elaborate_props(table_lean):
                             stamp_key=_sha(brand_src))
     if not ok:
         return ["<Proofs/BrandLemmas.lean does not compile>"], log
+    # Props/C12 also states the escape clause over the brand-flow model (table of eng_tables)
+    for rel, key in (("Model/BrandFlow", ""), ("Proofs/BrandFlowLemmas", "Model/BrandFlow"), ("Generated/BrandFlow", "Model/BrandFlow")):
+        srcf = os.path.join(LEAN, "GcArena", rel + ".lean")
+        if rel.startswith("Generated/") and os.environ.get("VERIF_TABLES_LEAN_OUT"):
+            cand = os.path.join(os.environ["VERIF_TABLES_LEAN_OUT"], "BrandFlow.lean")
+            srcf = cand if os.path.exists(cand) else srcf
+        ok, log = _lean_compile(srcf, os.path.join(out_dir, "GcArena", rel + ".olean"), out_dir,
+                                stamp_key=_sha(os.path.join(LEAN, "GcArena", key + ".lean")) if key else None)
+        if not ok:
+            return [f"<{rel}.lean does not compile>"], log
     src = os.path.join(LEAN, "GcArena", "Props", "C12.lean")
     rc, out = _sh(["lean", src], env=dict(ENV, LEAN_PATH=out_dir), timeout=900)
     if rc == 0:
@@ -198,7 +208,7 @@ THEOREM_TEXT = {
     "callbacks_present": "these callback entry points were not found",
     "callbacks_higher_ranked": "these entry points are no longer `for<'gc>` with `&'gc Mutation<'gc>` and a brand-free result",
     "collect_static_only": "these reference / interior-mutability / Static `Collect` impls lost their 'static bounds",
-    "transmutes_guarded": "these lifetime transmutes in dynamic_roots.rs are not dominated by `self.contains(root)`",
+    "transmutes_guarded": "these re-branding transmutes in dynamic_roots.rs can be reached without the `self.contains(<handle>)` identity check (directly, or through a private unsafe helper whose caller does not check)",
     "write_transparent": "`Write<T>` is no longer a transparent wrapper of `T`",
 }
 
@@ -235,6 +245,9 @@ def explain_entries(theorem, entries, table):
             for t in table.get("transmutes", []):
                 if t["file"] == "dynamic_roots.rs" and e.startswith(t["fn"] + ":") and t["operand"] in e:
                     out.append(f"  {t['fn']}: transmute::<{t['srcRust']}, {t['dstRust']}>({t['operand']})  enclosing ifs: {t['guards']}")
+                    for cs in table.get("callSites", []):
+                        out.append(f"    call site in {cs['caller']} ({cs['file']}): {cs['calleePath']}({', '.join(cs['args'])})  enclosing ifs: {cs['guards']}"
+                                   + ("" if cs["isCall"] else "  [mentioned, not called]"))
     return out
 
 
